@@ -189,4 +189,210 @@ theorem sector_of_angles (ρ1 ρ2 a1 a2 a : ℝ) (h1 : 0 < ρ1) (h2 : 0 < ρ2)
     mul_nonneg h1.le (Real.sin_nonneg_of_nonneg_of_le_pi (by linarith) (by linarith)),
     mul_nonneg h2.le (Real.sin_nonneg_of_nonneg_of_le_pi (by linarith) (by linarith))⟩
 
+/-! ### `np.sign` -/
+
+theorem sign_mul_self_pos (x : ℝ) (hx : x ≠ 0) : 0 < DTS.sign x * x ∧ DTS.sign x * DTS.sign x = 1 := by
+  unfold DTS.sign
+  simp only [Scalar.lit, Scalar.ofNat_real, Nat.cast_zero, Nat.cast_one]
+  rcases lt_or_gt_of_ne hx with h | h
+  · rw [if_pos h]; constructor <;> nlinarith
+  · rw [if_neg (not_lt.mpr h.le), if_pos h]; constructor <;> nlinarith
+
+/-! ### the bin loop of `_distance_to_surface_from` -/
+
+namespace DTS
+
+/-- the vertex angle the code computes -/
+def vang (p : P2 ℝ) : ℝ := fmod (Scalar.atan2 p.y p.x) twoPi
+
+/-- loop rows of an already rolled vertex list `W`; `f` is the successor of its last vertex -/
+def rowsAux (f : P2 ℝ) : List (P2 ℝ) → List (ℝ × ℝ × Edge ℝ)
+  | [] => []
+  | [p] => [(vang p, twoPi + eps, mkEdge p f)]
+  | p :: q :: rest => (vang p, vang q, mkEdge p q) :: rowsAux f (q :: rest)
+
+/-- consecutive pairs of `W`, the last one closed with `f` -/
+def cycPairs (f : P2 ℝ) : List (P2 ℝ) → List (P2 ℝ × P2 ℝ)
+  | [] => []
+  | [p] => [(p, f)]
+  | p :: q :: rest => (p, q) :: cycPairs f (q :: rest)
+
+/-- the vertex angles increase along the rolled list with gaps `< π`, the wrap gap included -/
+def ChainOK (f : P2 ℝ) : List (P2 ℝ) → Prop
+  | [] => True
+  | [p] => P2.norm p ≠ 0 ∧ P2.norm f ≠ 0 ∧ vang p < vang f + twoPi ∧ vang f + twoPi - vang p < Real.pi
+  | p :: q :: rest =>
+    P2.norm p ≠ 0 ∧ P2.norm q ≠ 0 ∧ vang p < vang q ∧ vang q - vang p < Real.pi ∧ ChainOK f (q :: rest)
+
+theorem rowsAux_ne_nil (f q : P2 ℝ) (rest : List (P2 ℝ)) : rowsAux f (q :: rest) ≠ [] := by
+  cases rest <;> simp [rowsAux]
+
+theorem rows_eq_aux (f : P2 ℝ) : ∀ W : List (P2 ℝ),
+    List.zipWith (fun lo he => (lo, he)) (W.map vang)
+      (List.zipWith (fun hi e => (hi, e)) ((W.map vang).drop 1 ++ [twoPi + eps])
+        (List.zipWith mkEdge W (W.drop 1 ++ [f]))) = rowsAux f W := by
+  intro W
+  induction W with
+  | nil => simp [rowsAux]
+  | cons p W' ih =>
+    cases W' with
+    | nil => simp [rowsAux]
+    | cons q rest =>
+      simp only [List.map_cons, List.drop_one, List.tail_cons, List.cons_append,
+        List.zipWith_cons_cons, rowsAux] at ih ⊢
+      rw [ih]
+
+theorem pairs_eq_aux (f : P2 ℝ) : ∀ W : List (P2 ℝ), W.zip (W.drop 1 ++ [f]) = cycPairs f W := by
+  intro W
+  induction W with
+  | nil => simp [cycPairs]
+  | cons p W' ih =>
+    cases W' with
+    | nil => simp [cycPairs]
+    | cons q rest =>
+      simp only [List.drop_one, List.tail_cons, List.cons_append, List.zip_cons_cons, cycPairs] at ih ⊢
+      rw [ih]
+
+theorem edgesOf_cons (p0 : P2 ℝ) (T : List (P2 ℝ)) : Spec.edgesOf (p0 :: T) = cycPairs p0 (p0 :: T) := by
+  rw [← pairs_eq_aux]
+  simp [Spec.edgesOf]
+
+theorem vertexAngles_rollL (k : Nat) (A : List (P2 ℝ)) :
+    rollL k (vertexAngles A) = (rollL k A).map vang := by
+  have h : vertexAngles A = A.map vang := rfl
+  rw [h]
+  simp only [rollL, List.map_append, List.map_drop, List.map_take]
+
+/-- the loop rows the code builds are `rowsAux` of the rolled vertex list -/
+theorem binRows_eq (A : List (P2 ℝ)) (p0 : P2 ℝ) (T : List (P2 ℝ))
+    (hW : rollL (argmin (vertexAngles A)) A = p0 :: T) :
+    binRows A = rowsAux p0 (p0 :: T) := by
+  unfold binRows
+  simp only [vertexAngles_rollL, hW]
+  rw [← rows_eq_aux]
+  simp [rollL]
+
+
+theorem binsFold_cons (a first : ℝ) (lo hi : ℝ) (e : Edge ℝ) (rest : List (ℝ × ℝ × Edge ℝ))
+    (hne : rest ≠ []) (acc : Option ℝ) :
+    binsFold a first ((lo, hi, e) :: rest) acc =
+      binsFold a first rest
+        (if (decide (lo ≤ a) && decide (a < hi)) = true then some (edgeDist e a) else acc) := by
+  cases rest with
+  | nil => exact absurd rfl hne
+  | cons r rs => simp only [binsFold]
+
+theorem binsFold_single (a first : ℝ) (lo hi : ℝ) (e : Edge ℝ) (acc : Option ℝ) :
+    binsFold a first [(lo, hi, e)] acc =
+      if ((decide (lo ≤ a) && decide (a < hi)) || (decide (lo - twoPi ≤ a) && decide (a < first))) = true
+      then some (edgeDist e a) else acc := by
+  simp only [binsFold]
+
+theorem binsFold_isSome (a first : ℝ) : ∀ (rows : List (ℝ × ℝ × Edge ℝ)) (acc : Option ℝ),
+    acc.isSome = true → (binsFold a first rows acc).isSome = true := by
+  intro rows
+  induction rows with
+  | nil => intro acc h; simpa [binsFold] using h
+  | cons r rest ih =>
+    intro acc h
+    obtain ⟨lo, hi, e⟩ := r
+    by_cases hne : rest = []
+    · subst hne
+      rw [binsFold_single]
+      split_ifs <;> simp [h]
+    · rw [binsFold_cons _ _ _ _ _ _ hne]
+      apply ih
+      split_ifs <;> simp [h]
+
+theorem eps_pos : (0 : ℝ) < eps := by
+  simp only [eps, Scalar.q, Scalar.ofNat_real]; norm_num
+
+theorem vang_range (p : P2 ℝ) : 0 ≤ vang p ∧ vang p < twoPi := fmod_range _
+
+/-- an angle below the smallest vertex angle is caught by the wrap range of the last row -/
+theorem binsFold_cover_lt (a : ℝ) (ha0 : 0 ≤ a) (f : P2 ℝ) (hlt : a < vang f) :
+    ∀ (W : List (P2 ℝ)) (acc : Option ℝ), W ≠ [] →
+      (binsFold a (vang f) (rowsAux f W) acc).isSome = true := by
+  intro W
+  induction W with
+  | nil => intro _ h; exact absurd rfl h
+  | cons p W' ih =>
+    intro acc _
+    cases W' with
+    | nil =>
+      simp only [rowsAux]
+      rw [binsFold_single]
+      have h1 : vang p - twoPi ≤ a := by have := (vang_range p).2; linarith
+      simp [h1, hlt]
+    | cons q rest =>
+      simp only [rowsAux]
+      rw [binsFold_cons _ _ _ _ _ _ (rowsAux_ne_nil f q rest)]
+      exact ih _ (by simp)
+
+/-- an angle at or above the first vertex angle of the chain falls into one of its bins -/
+theorem binsFold_cover_ge (a : ℝ) (ha2 : a < twoPi) (f : P2 ℝ) :
+    ∀ (W : List (P2 ℝ)) (acc : Option ℝ) (p : P2 ℝ) (T : List (P2 ℝ)), W = p :: T → vang p ≤ a →
+      (binsFold a (vang f) (rowsAux f W) acc).isSome = true := by
+  intro W
+  induction W with
+  | nil => intro _ _ _ h; exact absurd h (by simp)
+  | cons p' W' ih =>
+    intro acc p T hW hge
+    have hp : p' = p := by injection hW
+    subst hp
+    cases W' with
+    | nil =>
+      simp only [rowsAux]
+      rw [binsFold_single]
+      have : a < twoPi + eps := by have := eps_pos; linarith
+      simp [hge, this]
+    | cons q rest =>
+      simp only [rowsAux]
+      rw [binsFold_cons _ _ _ _ _ _ (rowsAux_ne_nil f q rest)]
+      by_cases hq : a < vang q
+      · apply binsFold_isSome
+        simp [hge, hq]
+      · exact ih _ q rest rfl (not_lt.mp hq)
+
+theorem fmod_id (x : ℝ) (h0 : 0 ≤ x) (h2 : x < twoPi) : fmod x twoPi = x := by
+  have hp := twoPi_pos
+  have : ⌊x / twoPi⌋ = 0 := by
+    rw [Int.floor_eq_iff]
+    constructor
+    · simp only [Int.cast_zero]; exact div_nonneg h0 hp.le
+    · simp only [Int.cast_zero, zero_add]; rw [div_lt_one hp]; exact h2
+  simp [fmod, this]
+
+theorem fmod_neg (x : ℝ) (h0 : -twoPi ≤ x) (h2 : x < 0) : fmod x twoPi = x + twoPi := by
+  have hp := twoPi_pos
+  have : ⌊x / twoPi⌋ = -1 := by
+    rw [Int.floor_eq_iff]
+    constructor
+    · simp only [Int.cast_neg, Int.cast_one]; rw [le_div_iff₀ hp]; linarith
+    · simp only [Int.cast_neg, Int.cast_one]; rw [div_lt_iff₀ hp]; linarith
+  simp [fmod, this]
+
+theorem vang_e1 : vang ⟨1, 0⟩ = 0 := by
+  have h : (⟨1, 0⟩ : ℂ) = 1 := by apply Complex.ext <;> simp
+  simp only [vang, Scalar.atan2_real, h, Complex.arg_one]
+  exact fmod_id 0 le_rfl twoPi_pos
+
+theorem vang_e2 : vang ⟨0, 1⟩ = Real.pi / 2 := by
+  have h : (⟨0, 1⟩ : ℂ) = Complex.I := by apply Complex.ext <;> simp
+  simp only [vang, Scalar.atan2_real, h, Complex.arg_I]
+  exact fmod_id _ (by positivity) (by rw [twoPi_real]; linarith [Real.pi_pos])
+
+theorem vang_e3 : vang ⟨-1, 0⟩ = Real.pi := by
+  have h : (⟨-1, 0⟩ : ℂ) = -1 := by apply Complex.ext <;> simp
+  simp only [vang, Scalar.atan2_real, h, Complex.arg_neg_one]
+  exact fmod_id _ Real.pi_pos.le (by rw [twoPi_real]; linarith [Real.pi_pos])
+
+theorem vang_e4 : vang ⟨0, -1⟩ = 3 * Real.pi / 2 := by
+  have h : (⟨0, -1⟩ : ℂ) = -Complex.I := by apply Complex.ext <;> simp
+  simp only [vang, Scalar.atan2_real, h, Complex.arg_neg_I]
+  rw [fmod_neg _ (by rw [twoPi_real]; linarith [Real.pi_pos]) (by linarith [Real.pi_pos]), twoPi_real]
+  ring
+
+end DTS
+
 end
